@@ -33,6 +33,9 @@ pub enum Op {
     PeerRequests(u8),
     /// other traffic that must not disturb the download
     PeerInterested(bool),
+    /// every outstanding request is answered and a trailing non-block message (none / keep-alive / unknown id / have)
+    /// follows, all written at once: the client finds the whole burst in one read
+    Burst(u8),
 }
 
 #[derive(Clone, Debug, Serialize, Deserialize)]
@@ -65,12 +68,42 @@ fn strategy(tier: Tier) -> BoxedStrategy<Case> {
                 2 => Just(Op::Unchoke),
                 1 => any::<u16>().prop_map(Op::Have),
                 2 => any::<u8>().prop_map(Op::PeerRequests),
+                2 => any::<u8>().prop_map(Op::Burst),
                 1 => any::<bool>().prop_map(Op::PeerInterested),
             ];
             (Just(pl), Just(n), last, vec(prop::bool::weighted(0.8), n..=n), vec(op, 0..40), any::<u64>())
         })
         .prop_map(|(piece_len, pieces, last_len, advertised, ops, seed)| Case { piece_len, pieces, last_len, advertised, ops, seed })
         .boxed()
+}
+
+/// Decoder for the coverage-guided campaign (fuzz target fz_hist).
+pub fn case_from_bytes(data: &[u8]) -> Case {
+    let mut r = crate::gen::ByteReader::new(data);
+    let piece_len = r.pick(&[1usize, 5, 16383, 16384, 16385, 32768, 32769, 49153, 40000, 20000]);
+    let pieces = 1 + r.below(4);
+    let last_len = 1 + (r.u16() as usize) % piece_len;
+    let advertised: Vec<bool> = (0..pieces).map(|_| r.below(5) != 0).collect();
+    let seed = r.u16() as u64;
+    let mut ops = vec![];
+    while !r.done() && ops.len() < 60 {
+        let op = match r.below(20) {
+            0..=5 => Op::Answer(r.ix()),
+            6 | 7 => Op::AnswerAll(r.u8()),
+            8 | 9 => Op::Duplicate(r.ix()),
+            10 => Op::Withhold,
+            11 => Op::WithholdLong,
+            12 => Op::Choke,
+            13 => Op::ChokeKeep,
+            14 | 15 => Op::Unchoke,
+            16 => Op::Have(r.ix()),
+            17 => Op::PeerRequests(r.u8()),
+            18 => Op::Burst(r.u8()),
+            _ => Op::PeerInterested(r.bool()),
+        };
+        ops.push(op);
+    }
+    Case { piece_len, pieces, last_len, advertised, ops, seed }
 }
 
 struct Epoch {
@@ -216,6 +249,23 @@ impl Sim {
     /// it accepts the block iff it has requested it in the current assignment and not yet received it.
     async fn deliver(&mut self, w: &mut World, p: u32, b: u32, l: u32, check_progress: bool) {
         let data = self.t.piece(p as usize)[b as usize..(b + l) as usize].to_vec();
+        let (accepted, remaining) = self.model_accept(p, b, l);
+        w.send_frame(self.conn, &RFrame::Piece(p, b, data));
+        self.answered.push((p, b, l));
+        let same_epoch = self.observe(w, "after a block").await;
+        if check_progress && accepted && remaining > 0 && self.fails.is_empty() && w.fatal().is_none() && w.handler_alive(self.conn) {
+            self.classes.push("progress-rule-checked");
+            if same_epoch != 1 {
+                self.fail(
+                    "accepted-block-not-followed-by-one-request",
+                    format!("step {}: an accepted block ({},{},{}) with {} blocks still unrequested was followed by {} new requests", self.step, p, b, l, remaining, same_epoch),
+                );
+            }
+        }
+    }
+
+    /// The acceptance model for one arriving block: (accepted, blocks of the current tiling not yet requested).
+    fn model_accept(&mut self, p: u32, b: u32, l: u32) -> (bool, usize) {
         let mut accepted = false;
         let mut remaining = 0usize;
         if let Some(e) = self.epoch.as_mut() {
@@ -232,18 +282,7 @@ impl Sim {
         if !accepted {
             self.classes.push("duplicate-or-stale-answer");
         }
-        w.send_frame(self.conn, &RFrame::Piece(p, b, data));
-        self.answered.push((p, b, l));
-        let same_epoch = self.observe(w, "after a block").await;
-        if check_progress && accepted && remaining > 0 && self.fails.is_empty() && w.fatal().is_none() && w.handler_alive(self.conn) {
-            self.classes.push("progress-rule-checked");
-            if same_epoch != 1 {
-                self.fail(
-                    "accepted-block-not-followed-by-one-request",
-                    format!("step {}: an accepted block ({},{},{}) with {} blocks still unrequested was followed by {} new requests", self.step, p, b, l, remaining, same_epoch),
-                );
-            }
-        }
+        (accepted, remaining)
     }
 }
 
@@ -325,6 +364,68 @@ pub fn check(c: &Case) -> Outcome {
                                 break;
                             }
                             sim.deliver(w, p, b, l, true).await;
+                        }
+                    }
+                    Op::Burst(tr) => {
+                        let reqs: Vec<(u32, u32, u32)> = sim.view.outstanding.drain(..).collect();
+                        if reqs.is_empty() {
+                            continue;
+                        }
+                        // The acceptance model is exact for a burst only if it does not depend on the requests the
+                        // client sends while it works through the burst: every answered request belongs to the current
+                        // assignment, is still unanswered, and occurs once. Otherwise deliver one block per barrier.
+                        let exact = match &sim.epoch {
+                            Some(e) => {
+                                let set: BTreeSet<(u32, u32, u32)> = reqs.iter().copied().collect();
+                                set.len() == reqs.len() && reqs.iter().all(|(p, b, l)| *p == e.piece && e.seen.contains(&(*b, *l)) && !e.delivered.contains(&(*b, *l)))
+                            }
+                            None => false,
+                        };
+                        if !exact {
+                            for (p, b, l) in reqs {
+                                if !w.handler_alive(conn) || !sim.fails.is_empty() {
+                                    break;
+                                }
+                                sim.deliver(w, p, b, l, true).await;
+                            }
+                            continue;
+                        }
+                        let mut bytes = vec![];
+                        let mut acc = 0usize;
+                        let mut unrequested = None;
+                        for (p, b, l) in &reqs {
+                            let (a, rem) = sim.model_accept(*p, *b, *l);
+                            if unrequested.is_none() {
+                                unrequested = Some(rem);
+                            }
+                            if a {
+                                acc += 1;
+                            }
+                            let data = sim.t.piece(*p as usize)[*b as usize..(*b + *l) as usize].to_vec();
+                            bytes.extend_from_slice(&wire::encode(&RFrame::Piece(*p, *b, data)));
+                            sim.answered.push((*p, *b, *l));
+                        }
+                        match tr % 4 {
+                            0 => {}
+                            1 => bytes.extend_from_slice(&wire::encode(&RFrame::KeepAlive)),
+                            2 => bytes.extend_from_slice(&wire::encode(&RFrame::Unknown(20, vec![1, 2, 3]))),
+                            _ => {
+                                bytes.extend_from_slice(&wire::encode(&RFrame::Have(0)));
+                                sim.advertised[0] = true;
+                            }
+                        }
+                        sim.classes.push("burst-of-answers-with-trailer-in-one-write");
+                        w.send(conn, &bytes);
+                        let same = sim.observe(w, "after a burst").await;
+                        let unrequested = unrequested.unwrap_or(0);
+                        if acc > 0 && unrequested >= acc && sim.fails.is_empty() && w.fatal().is_none() && w.handler_alive(conn) {
+                            sim.classes.push("progress-rule-checked");
+                            if same != acc {
+                                sim.fail(
+                                    "accepted-block-not-followed-by-one-request",
+                                    format!("step {}: a burst of {} accepted blocks (trailer kind {}) with {} blocks still unrequested was followed by {} new requests", sim.step, acc, tr % 4, unrequested, same),
+                                );
+                            }
                         }
                     }
                     Op::Duplicate(k) => {
@@ -419,14 +520,14 @@ pub fn check(c: &Case) -> Outcome {
 pub fn def() -> PropDef {
     PropDef {
         id: "C10",
-        rule: "one honest-content remote peer on the swarm runtime (real connection task + real manager): piece length from {1,5,16383,16384,16385,32768,32769,49153 (+65536,40000,20000 thorough)}, 1-4 pieces, generated shorter last piece, partial bitfield with later Haves; a history of up to 40 ops {answer k-th outstanding request, answer all (rotated), duplicate an answered block, withhold, choke, unchoke, have}. Oracle over the Request frames the client writes, grouped into assignment epochs (a repeated block or a different piece index is only allowed after the manager made a new assignment): every request is a block of the reference tiling of that piece's length, <= 16 KiB, never repeated within an epoch, for a piece the peer advertised; a new assignment the peer did not cause (no Unchoke after a Choke, no finished or cancelled piece) never starts while a piece is under way - also not after 25 s of silence with blocks outstanding (op WithholdLong); an accepted block while blocks remain unrequested is followed by exactly one further request (also for blocks that were in flight when the peer choked the client: the statement has no choke exception); a piece is Have with its file on disk exactly from the barrier at which every block of its tiling has been delivered within one assignment, never before. Non-trivial = piece length not a multiple of 16 KiB, or an out-of-order or duplicate answer; distinct by hash of the case.",
+        rule: "one honest-content remote peer on the swarm runtime (real connection task + real manager): piece length from {1,5,16383,16384,16385,32768,32769,49153 (+65536,40000,20000 thorough)}, 1-4 pieces, generated shorter last piece, partial bitfield with later Haves; a history of up to 40 ops {burst: all outstanding answers plus a trailing keep-alive / unknown-id message / have in one write (asserted when the acceptance model is independent of the requests the client sends meanwhile), answer k-th outstanding request, answer all (rotated), duplicate an answered block, withhold, choke, unchoke, have}. Oracle over the Request frames the client writes, grouped into assignment epochs (a repeated block or a different piece index is only allowed after the manager made a new assignment): every request is a block of the reference tiling of that piece's length, <= 16 KiB, never repeated within an epoch, for a piece the peer advertised; a new assignment the peer did not cause (no Unchoke after a Choke, no finished or cancelled piece) never starts while a piece is under way - also not after 25 s of silence with blocks outstanding (op WithholdLong); an accepted block while blocks remain unrequested is followed by exactly one further request (also for blocks that were in flight when the peer choked the client: the statement has no choke exception); a piece is Have with its file on disk exactly from the barrier at which every block of its tiling has been delivered within one assignment, never before. Non-trivial = piece length not a multiple of 16 KiB, or an out-of-order or duplicate answer; distinct by hash of the case.",
         assumptions: &["the order in which blocks of a piece are requested is not asserted (the property speaks of coverage, not order)"],
         subs: vec![Sub {
             name: "tiling",
             cases: |t| t.pick(25_000, 300_000),
             run: |ctx| run_proptest(ctx, "tiling", strategy(ctx.tier), check),
             replay: |v| replay_case::<Case>(v, check),
-            min_class: &[("piece-length-not-multiple-of-16KiB", 0.3812), ("shorter-last-piece", 0.2603), ("epoch-completed", 0.487), ("out-of-order-answer", 0.1492), ("duplicate-or-stale-answer", 0.1), ("progress-rule-checked", 0.0982), ("choke", 0.1029), ("choke-with-blocks-in-flight", 0.05), ("peer-sends-own-request", 0.2), ("silent-for-25s-with-blocks-outstanding", 0.08)],
+            min_class: &[("piece-length-not-multiple-of-16KiB", 0.3812), ("shorter-last-piece", 0.2603), ("epoch-completed", 0.487), ("out-of-order-answer", 0.1492), ("duplicate-or-stale-answer", 0.1), ("progress-rule-checked", 0.0982), ("choke", 0.1029), ("choke-with-blocks-in-flight", 0.05), ("peer-sends-own-request", 0.2), ("silent-for-25s-with-blocks-outstanding", 0.08), ("burst-of-answers-with-trailer-in-one-write", 0.12)],
         }],
     }
 }
